@@ -249,6 +249,8 @@ func evalCons(c cons, v string) int {
 		return tri(len(v)%2 == 0, true)
 	case "lower": // custom constraint registered by the harness: no upper-case ASCII letter
 		return tri(v == strings.ToLower(v), true)
+	case "Upper": // custom constraint with an upper-case letter in its name: no lower-case ASCII letter
+		return tri(v == strings.ToUpper(v), true)
 	}
 	return 0
 }
@@ -283,6 +285,9 @@ var consPool = []consSpec{
 	// letter-case sensitive constraints: the value is judged as the client spelled it
 	{c: cons{Kind: "regex", Args: []string{`^[a-z]{2}$`}}, good: []string{"ab", "xy"}, bad: []string{"AB", "Ab", "aB", "a1", "abc"}},
 	{c: cons{Kind: "lower"}, good: []string{"ab", "x1", "news"}, bad: []string{"AB", "News", "xY"}},
+	{c: cons{Kind: "regex", Args: []string{`^[A-Z]{2}$`}}, good: []string{"AB", "XY"}, bad: []string{"ab", "Ab", "aB", "A1", "ABC"}},
+	{c: cons{Kind: "Upper"}, good: []string{"AB", "X1", "NEWS"}, bad: []string{"ab", "News", "xY"}},
+	{c: cons{Kind: "datetime", Args: []string{"2006-01-02T15"}}, good: []string{"2005-11-01T09", "1999-12-31T23"}, bad: []string{"2005-11-01t09", "2005-11-01 09", "2005-11-01"}, dash: true},
 }
 
 // evenConstraint is the custom constraint the harness registers on every app of the
@@ -300,6 +305,14 @@ type lowerConstraint struct{}
 func (lowerConstraint) Name() string { return "lower" }
 func (lowerConstraint) Execute(param string, _ ...string) bool {
 	return param == strings.ToLower(param)
+}
+
+// upperConstraint: custom constraint whose NAME contains an upper-case letter.
+type upperConstraint struct{}
+
+func (upperConstraint) Name() string { return "Upper" }
+func (upperConstraint) Execute(param string, _ ...string) bool {
+	return param == strings.ToUpper(param)
 }
 
 // genConsToken picks 1–2 compatible constraints and returns them with value pools that
